@@ -429,6 +429,12 @@ func (s *session) EnqueueBytesAndSend(msg []byte) {
 	s.sendMutex.Lock()
 	defer s.sendMutex.Unlock()
 
+	// Outside a logon the run loop drops what is queued instead of sending it: a replay must not
+	// carry those messages onto the wire either.
+	if !s.IsLoggedOn() {
+		s.dropQueued()
+	}
+
 	s.toSend = append(s.toSend, msg)
 	s.sendQueued(true)
 }
